@@ -249,6 +249,40 @@ func checkC16(c *Ctx, r *Report) {
 		}
 		r.add("C16.c", "no-reorder", "annotations:source-order", "attribute order is source order: comments are appended in doc-list order and never sorted or passed through a map", fns, sites, viol)
 	}
+	ruleEach(c, r, "C16.c", "gast.MapDocListToCommentBlock",
+		func(fi *FuncInfo) func(ast.Expr) bool { return identNamed("docList") }, "docList",
+		func(fi *FuncInfo) func(ast.Node) bool { return w.appendTo(fi, identNamed("comments")) }, "append(comments, …)", nil, false,
+		"every line of the doc comment becomes a comment node (a skipped line leaves a gap in the indices, which GetDescription reads as the end of the leading free text, and disappears from NonAttributeComments)")
+	if fi := need(c, r, "C16.c", nah); fi != nil {
+		// free text is the line without the comment marker and surrounding blanks - nothing else is stripped
+		nac := w.lookupType(pkgAnn, "NonAttributeComment")
+		viol := ""
+		var sites []string
+		for _, sk := range w.fieldSinks(fi, nac, "Value") {
+			sites = append(sites, w.pos(sk.Pos))
+			ast.Inspect(sk.Expr, func(n ast.Node) bool {
+				cl, ok := n.(*ast.CallExpr)
+				if !ok {
+					return true
+				}
+				switch nm := calleeOfCall(fi.Pkg.TypesInfo, cl); nm {
+				case "strings.Trim", "strings.TrimLeft", "strings.TrimRight", "strings.TrimPrefix", "strings.TrimSuffix":
+					if len(cl.Args) == 2 {
+						if l := litString(cl.Args[1]); l != "//" && l != " " {
+							viol = fmt.Sprintf("%s: free text is stripped of %q", w.pos(cl.Pos()), l)
+						}
+					}
+				default:
+					viol = fmt.Sprintf("%s: the free text of a comment line passes through %s: anything beyond removing the `//` marker and surrounding spaces changes what was written (tab-indented code blocks, non-ASCII spacing)", w.pos(cl.Pos()), nm)
+				}
+				return true
+			})
+		}
+		if len(sites) == 0 {
+			viol = "no NonAttributeComment.Value sink"
+		}
+		r.add("C16.c", "fieldflow", nah+":free-text-verbatim", "free text is kept as written (only the comment marker and surrounding spaces are removed)", []string{nah}, sites, viol)
+	}
 	if fi := need(c, r, "C16.c", "gast.MapDocListToCommentBlock"); fi != nil {
 		cn := w.lookupType("gast", "CommentNode")
 		viol := ""
